@@ -31,6 +31,17 @@ MIN_INSTANCES = 60
 POOL_FIELDS = {'_resources', '_reserved_resources', '_waiting_requests'}
 
 
+def _unwrap_snapshot(e):
+    """`list(x)` / `tuple(x)` / `x.copy()` iterate the same entries as x (a snapshot taken because the loop edits the mapping)"""
+    while True:
+        if isinstance(e, ast.Call) and isinstance(e.func, ast.Name) and e.func.id in ('list', 'tuple') and len(e.args) == 1 and not e.keywords:
+            e = e.args[0]
+        elif isinstance(e, ast.Call) and isinstance(e.func, ast.Attribute) and e.func.attr == 'copy' and not e.args:
+            e = e.func.value
+        else:
+            return e
+
+
 def _loop_escapes(loop):
     return any(isinstance(x, (ast.Break, ast.Continue, ast.Return)) for x in ast.walk(loop))
 
@@ -228,7 +239,7 @@ def check(ctx):
         out = []
         for n in g.nodes.values():
             if n.kind == 'for' and isinstance(n.ast.target, ast.Tuple) and len(n.ast.target.elts) == 2 and all(isinstance(e, ast.Name) for e in n.ast.target.elts):
-                if ast.unparse(subst(n.ast.iter, FrameEnv(n.frame))) == f'{mapping_text}.items()':
+                if ast.unparse(_unwrap_snapshot(subst(n.ast.iter, FrameEnv(n.frame)))) == f'{mapping_text}.items()':
                     out.append((n, n.ast.target.elts[0].id, n.ast.target.elts[1].id))
         return out
 
@@ -456,7 +467,7 @@ def fallible_after_mutation(ctx, c, op, field, o):
                 ren = dict(zip(names, ['K_', 'V_', 'W_']))
                 if isinstance(p_.iter, ast.Name) and p_.iter.id not in frame.argmap:
                     return p_.iter.id, ren          # a local collection (filled by appends, checked where it is filled)
-                return ast.unparse(subst(p_.iter, FrameEnv(frame))), ren
+                return ast.unparse(_unwrap_snapshot(subst(p_.iter, FrameEnv(frame)))), ren
             cur = p_
         return None, {}
 
@@ -658,6 +669,15 @@ def reserve_shape(ctx, RM, o):
     filt_ok = False
     if tested in defs:
         d = defs[tested]
+        if isinstance(d, ast.Call) and isinstance(d.func, ast.Attribute) and is_self_attr(d.func) and not d.keywords:
+            # the filter lives in a helper (`self._positive_entries(request)`): its single returned expression, with the parameters
+            # replaced by the arguments
+            hit_ = P.lookup(RM, d.func.attr)
+            if hit_ and hit_[1] == 'method':
+                rets_ = [x for x in ast.walk(hit_[2]) if isinstance(x, ast.Return) and x.value is not None]
+                hp_ = [a_.arg for a_ in hit_[2].args.args][1:]
+                if len(rets_) == 1 and len(hp_) == len(d.args):
+                    d = subst(rets_[0].value, dict(zip(hp_, d.args)))
         if isinstance(d, ast.DictComp) and len(d.generators) == 1 and ast.unparse(d.generators[0].iter) == f'{pn}.items()' and len(d.generators[0].ifs) == 1:
             tg = d.generators[0].target
             names = [e.id for e in tg.elts] if isinstance(tg, ast.Tuple) else []
